@@ -38,7 +38,8 @@ ASSUMPTIONS = [
     "tolerance 1e-8 of the natural scale of the per-K contributions (see module docstring)",
     "tetra=True cannot be compared exactly: the tetrahedron split of a cell is not invariant under the point group, so the two "
     "sides agree only to discretisation order (observed 0.5-2% of the scale on the doubled grid, anything between 0 and 50% on the "
-    "coarse one, not monotonic); the thorough tier therefore only requires |diff| <= 5% of the scale on the doubled grid "
+    "coarse one, not monotonic, larger for Fermi-surface derivatives); the thorough tier therefore only requires |diff| <= 5% / 15% / 30% "
+    "of the scale (Fermi sea / f' / f'' and higher) on the doubled grid "
     "(a smoke test that catches a component symmetrised away or doubled, not a subtle error)",
     "Fermi levels are chosen off every band energy of the grid (irrational offsets); adaptive refinement is not used (C10)",
     "calculators whose constructor or first evaluation raises for reasons unrelated to symmetry "
@@ -563,12 +564,13 @@ def run_tetra(case, s, sib, meta, tmp):
     good, bad = probe(s, specs_probe)
     if not good:
         return {"ok": True, "nontrivial": False, "obs": {"not_runnable": bad}}
-    diffs = {}
+    diffs, fder = {}, {}
     for mult in (1, 2):
         NK = [n * mult if n > 1 else 1 for n in case["NK"]]
         res, st = {}, {}
         for tag, system, irred in (("irr", s, True), ("full", s, False)):
             calcs, st[tag], _ = instantiate(specs, only=good)
+            fder.update({nm: int(getattr(c, "fder", 0)) for nm, c in calcs.items()})
             res[tag] = do_run(system, NK, case["NKFFT"], calcs, irred, tmp, f"{tag}{mult}")
         for nm in good:
             a, b = res["irr"].results[nm], res["full"].results[nm]
@@ -580,7 +582,7 @@ def run_tetra(case, s, sib, meta, tmp):
     failures, nontrivial = [], []
     for nm, (d1, d2) in diffs.items():
         nontrivial.append((case["model"], "tetra:" + nm))
-        if d2[0] > 0.05:
+        if d2[0] > {0: 0.05, 1: 0.15}.get(fder.get(nm, 0), 0.3):
             failures.append((f"irr!=full:tetra:{nm.split(':')[0]}",
                              f"{nm}: |diff|/scale N={d1[0]:.3e} 2N={d2[0]:.3e} at {d2[1]}"))
     if failures:
